@@ -46,6 +46,16 @@
 (* integers (the harness renders price/amount in quarter units and time in *)
 (* time units - half seconds, or 1/64 s where the venue format carries    *)
 (* sub-millisecond times - from a fixed epoch, compared exactly).         *)
+(* Market names are OPAQUE: the spec has no relation between names, so two *)
+(* venue symbols that differ only by letter case (kPEPEUSDT / KPEPEUSDT)   *)
+(* are simply two distinct markets m1 # m2.  The harness' case-twin        *)
+(* flavours (named_ct, generated_ct) concretise markets 1,2 and 3,4 as     *)
+(* such pairs for the instruments that are subscribed by name_exchange;    *)
+(* Attribution (the event of m carries a key of subs[m] and of no other    *)
+(* subscribed market) and RejectUnsubscribed (m not subscribed -> Unid,    *)
+(* whatever else is subscribed) decide them with NMarkets >= 2.  Routes    *)
+(* whose connector normalises the case on the wire (Binance) cannot carry  *)
+(* such a pair - the venue cannot list it - and are skipped there.         *)
 (*                                                                         *)
 (* Deliberately open (DESIGN 5.4) - and nothing else:                      *)
 (*   * SignOpen routes (Gate.io futures/perpetual/option trades): the      *)
